@@ -36,7 +36,7 @@ theorem prologue_net (s : State) (t : Nat) : (prologue s t).1.net = s.net ∨ (p
   repeat' split
   all_goals simp
 
-theorem eventEnable_net (s : State) (m : Nat) : (eventEnable s m).net = s.net ∨ (eventEnable s m).net = {} := by
+theorem eventEnable_net (k : Bool) (s : State) (m : Nat) : (eventEnable k s m).net = s.net ∨ (eventEnable k s m).net = {} := by
   simp only [eventEnable]
   repeat' split
   all_goals simp
@@ -58,7 +58,7 @@ theorem stepAtom_cni_other (cfg : Cfg) (s : State) (a : Atom) (c : Carrier) (h :
     · left; simp only [stepAtom]; rw [e]
     · right; simp only [stepAtom]; rw [e]; cases c <;> rfl
   | mask m =>
-    rcases eventEnable_net s m with e | e
+    rcases eventEnable_net _ s m with e | e
     · left; simp only [stepAtom]; rw [e]
     · right; simp only [stepAtom]; rw [e]; cases c <;> rfl
   | chsw => left; rfl
@@ -77,7 +77,7 @@ theorem stepAtom_cni_other (cfg : Cfg) (s : State) (a : Atom) (c : Carrier) (h :
       simp only [lineCni, cniStep]
       have hc : c ≠ .vps := by
         intro e; rw [e] at h; simp [Atom.freeOf, Line.freeOf] at h
-      exact cniRx_cni_other cfg.lk .vps c _ s hc
+      exact cniRx_cni_other cfg .vps c _ s hc
     | ttx b =>
       have k := rxLine_cniStep cfg t s (.ttx b) (Or.inr ⟨b, rfl⟩)
       rw [k.1]
@@ -90,7 +90,7 @@ theorem stepAtom_cni_other (cfg : Cfg) (s : State) (a : Atom) (c : Carrier) (h :
         simp only [cniStep]
         have hne : c ≠ c' := by
           rw [hc]; exact fun e => ttxCni_carrier s.mask b c' v hq e.symm
-        exact cniRx_cni_other cfg.lk c' c v s hne
+        exact cniRx_cni_other cfg c' c v s hne
 
 theorem runAtoms_cni_other (cfg : Cfg) (c : Carrier) (u : Nat) :
     ∀ (mid : List Atom) (s : State), (∀ a ∈ mid, a.freeOf c = true) → (cniOf c s.net = u ∨ cniOf c s.net = 0) →
@@ -113,7 +113,7 @@ theorem line_differs_silent (cfg : Cfg) (t : Nat) (s : State) (l : Line) (c : Ca
   have k := rxLine_cniStep cfg t s l (lineCni_some_kind _ _ _ h)
   obtain ⟨extra, hev, hex⟩ := k.2.2.2.2.2.2.2.2
   rw [hev, h]
-  simp only [cniStep, cniRx_change cfg.lk c v s hd]
+  simp only [cniStep, cniRx_change cfg c v s hd]
   exact Silent_append Silent_nil (Silent_extra hex)
 
 theorem needs_repeat_window (cfg : Cfg) (c : Carrier) (u v : Nat) (hne : u ≠ v) (hv0 : v ≠ 0)
@@ -125,7 +125,7 @@ theorem needs_repeat_window (cfg : Cfg) (c : Carrier) (u v : Nat) (hne : u ≠ v
   have a1 : cniOf c (stepAtom cfg s0 (.line t1 l1)).1.net = u ∨ cniOf c (stepAtom cfg s0 (.line t1 l1)).1.net = 0 := by
     simp only [stepAtom]
     rw [k.1, h1]
-    exact cniRx_cni_self cfg.lk c u s0
+    exact cniRx_cni_self cfg c u s0
   have a2 := runAtoms_cni_other cfg c u mid _ hmid a1
   simp only [stepAtom]
   apply line_differs_silent cfg t2 _ l2 c v h2
